@@ -573,5 +573,31 @@ fn console_vxw_c02() {
         }
     }
 
+    // ---- callers whose process name / executable path are not valid UTF-8 (legal on Linux): an identity attribute that merely
+    //      LOOKS the same after a lossy conversion (U+FFFD for the invalid byte) does not equal the caller's
+    {
+        use std::os::unix::ffi::OsStringExt;
+        let raw_exe = std::path::PathBuf::from(std::ffi::OsString::from_vec(b"/opt/agent/bin\x80/waagent".to_vec()));
+        let raw_name = std::ffi::OsString::from_vec(b"waagent\xff".to_vec());
+        let mut extra = 0u64;
+        for (what, ident_exe, ident_proc) in [
+            ("exePath with U+FFFD vs caller path with an invalid byte", Some("/opt/agent/bin\u{FFFD}/waagent"), None),
+            ("processName with U+FFFD vs caller name with an invalid byte", None, Some("waagent\u{FFFD}")),
+            ("both", Some("/opt/agent/bin\u{FFFD}/waagent"), Some("waagent\u{FFFD}")),
+        ] {
+            let i = Identity { name: "i".to_string(), userName: None, groupName: None, exePath: ident_exe.map(|s| s.to_string()), processName: ident_proc.map(|s| s.to_string()) };
+            let mut c = claims(&ALICE);
+            c.processFullPath = raw_exe.clone();
+            c.processName = raw_name.clone();
+            let mut logger = ConnectionLogger::new(0, 0);
+            let got = i.is_match(&mut logger, &c);
+            extra += 1;
+            if got {
+                println!("VXW-FAIL {}", serde_json::json!({"section": "H.non-utf8 identity attributes", "case": what, "identity": {"exePath": ident_exe, "processName": ident_proc},
+                    "caller": {"exe_bytes": "/opt/agent/bin\\x80/waagent", "process_name_bytes": "waagent\\xff"}, "got": "match", "want": "no match (the attribute does not equal the caller's)"}));
+            }
+        }
+        ctx.cases += extra;
+    }
     println!("VXW-DONE {}", ctx.cases);
 }
